@@ -68,80 +68,87 @@ theorem eraseMany_mem : ∀ (l : List Nat) (c : Cache) (j : Nat), j ∈ l → er
       · rw [x, eraseAt_self]
     · exact ih _ j hj
 
-/-- `_erase_cache_up` only erases -/
-theorem eraseUpF_cases : ∀ n h c i j, eraseUpF n h c i j = [] ∨ eraseUpF n h c i j = c j := by
+theorem mem_foldl_addNew (x : Nat) : ∀ (l acc : List Nat), (x ∈ acc ∨ x ∈ l) → x ∈ l.foldl addNew acc := by
+  intro l
+  induction l with
+  | nil => intro acc h; rcases h with h | h; exact h; cases h
+  | cons a l ih =>
+    intro acc h
+    apply ih
+    rcases h with h | h
+    · left; unfold addNew; split
+      · exact h
+      · exact List.mem_append_left _ h
+    · rcases List.mem_cons.mp h with rfl | h
+      · left; unfold addNew; split
+        · rename_i hc; simpa using hc
+        · exact List.mem_append_right _ (by simp)
+      · exact .inr h
+
+theorem mem_dedup {x : Nat} {l : List Nat} (h : x ∈ l) : x ∈ dedup l := mem_foldl_addNew x l [] (.inr h)
+
+theorem mem_parentsUp {h : Heap} {fr : List Nat} {i p : Nat} (hi : i ∈ fr) (hp : p ∈ parentsOf h i) (hl : live h p = true) :
+    p ∈ parentsUp h fr := by
+  unfold parentsUp
+  apply mem_dedup
+  exact List.mem_flatMap.mpr ⟨i, hi, List.mem_filter.mpr ⟨hp, by simpa using hl⟩⟩
+
+theorem eraseLv_cases : ∀ n h c fr j, eraseLv n h c fr j = [] ∨ eraseLv n h c fr j = c j := by
   intro n
   induction n with
-  | zero => intro h c i j; exact eraseAt_cases c i j
+  | zero => intro h c fr j; exact eraseMany_cases fr c j
   | succ n ih =>
-    intro h c i j
-    simp only [eraseUpF]
-    have key : ∀ (l : List Nat) (acc : Cache), (acc j = [] ∨ acc j = c j) →
-        (l.foldl (fun acc p => eraseUpF n h acc p) acc j = [] ∨ l.foldl (fun acc p => eraseUpF n h acc p) acc j = c j) := by
-      intro l
-      induction l with
-      | nil => intro acc ha; exact ha
-      | cons p l ihl =>
-        intro acc ha
-        apply ihl
-        show eraseUpF n h acc p j = [] ∨ eraseUpF n h acc p j = c j
-        rcases ih h acc p j with x | x
-        · exact .inl x
-        · rw [x]; exact ha
-    exact key _ _ (eraseAt_cases c i j)
+    intro h c fr j
+    simp only [eraseLv]
+    rcases ih h (eraseMany c fr) (parentsUp h fr) j with x | x
+    · exact .inl x
+    · rcases eraseMany_cases fr c j with y | y
+      · exact .inl (by rw [x, y])
+      · exact .inr (by rw [x, y])
 
-theorem eraseUpF_keeps_empty (n : Nat) (h : Heap) (c : Cache) (i j : Nat) (hj : c j = []) : eraseUpF n h c i j = [] := by
-  rcases eraseUpF_cases n h c i j with x | x
+theorem eraseLv_keeps_empty (n : Nat) (h : Heap) (c : Cache) (fr : List Nat) (j : Nat) (hj : c j = []) : eraseLv n h c fr j = [] := by
+  rcases eraseLv_cases n h c fr j with x | x
   · exact x
   · rw [x, hj]
 
-theorem foldl_eraseUp_keeps_empty (n : Nat) (h : Heap) (j : Nat) :
-    ∀ (l : List Nat) (acc : Cache), acc j = [] → l.foldl (fun acc p => eraseUpF n h acc p) acc j = [] := by
-  intro l
-  induction l with
-  | nil => intro acc ha; exact ha
-  | cons p l ih => intro acc ha; exact ih _ (eraseUpF_keeps_empty n h acc p j ha)
+theorem eraseLv_mem (n : Nat) (h : Heap) (c : Cache) (fr : List Nat) (j : Nat) (hj : j ∈ fr) : eraseLv n h c fr j = [] := by
+  cases n with
+  | zero => exact eraseMany_mem _ _ _ hj
+  | succ n => simp only [eraseLv]; exact eraseLv_keeps_empty n h _ _ j (eraseMany_mem _ _ _ hj)
+
+/-- `_erase_cache_up` only erases -/
+theorem eraseUpF_cases (n : Nat) (h : Heap) (c : Cache) (i j : Nat) : eraseUpF n h c i j = [] ∨ eraseUpF n h c i j = c j :=
+  eraseLv_cases n h c [i] j
+
+theorem eraseUpF_keeps_empty (n : Nat) (h : Heap) (c : Cache) (i j : Nat) (hj : c j = []) : eraseUpF n h c i j = [] :=
+  eraseLv_keeps_empty n h c [i] j hj
+
+/-- a generation that contains `i` reaches every live flagged container above `i` -/
+theorem eraseLv_reaches (h : Heap) (hinv : Inv h) :
+    ∀ (p i : Nat), Reach h p i → live h p = true → flagged h p = true →
+      ∀ n c fr, i ∈ fr → p < i + (n + 1) → eraseLv n h c fr p = [] := by
+  intro p i r
+  induction r with
+  | refl => intro _ _ n c fr hi _; exact eraseLv_mem n h c fr p hi
+  | step rb hc ih =>
+    rename_i b c'
+    intro hl hf n c fr hi hn
+    have ⟨hlb, hfb⟩ := closed_reach hinv hl hf b rb
+    have hbc := hinv.ordered b c' hc
+    have hpb := rb.le hinv.ordered
+    have hmem : b ∈ parentsUp h fr := mem_parentsUp hi (hinv.closed b c' hlb hfb hc).2 hlb
+    cases n with
+    | zero => omega
+    | succ n =>
+      simp only [eraseLv]
+      exact ih hl hf n _ _ hmem (by omega)
 
 /-- `_erase_cache_up` reaches every live flagged container above `i` (through the direct containers, which the lock-graph
 invariant keeps registered) -/
 theorem eraseUpF_reaches (h : Heap) (hinv : Inv h) :
     ∀ (p i : Nat), Reach h p i → live h p = true → flagged h p = true →
-      ∀ n c, p < i + (n + 1) → eraseUpF n h c i p = [] := by
-  intro p i r
-  induction r with
-  | refl =>
-    intro _ _ n c _
-    rcases eraseUpF_cases n h c p p with x | x
-    · exact x
-    · cases n with
-      | zero => simp [eraseUpF, eraseAt_self]
-      | succ n =>
-        simp only [eraseUpF]
-        exact foldl_eraseUp_keeps_empty n h p _ _ (eraseAt_self c p)
-  | step rb hc ih =>
-    rename_i b c'
-    intro hl hf n c hn
-    have ⟨hlb, hfb⟩ := closed_reach hinv hl hf b rb
-    have hbc := hinv.ordered b c' hc
-    have hpb := rb.le hinv.ordered
-    have hmem : b ∈ (parentsOf h c').filter (fun p => live h p) := by
-      rw [List.mem_filter]; exact ⟨(hinv.closed b c' hlb hfb hc).2, hlb⟩
-    cases n with
-    | zero => omega
-    | succ n =>
-      simp only [eraseUpF]
-      -- the fold visits `b`; afterwards `p` stays erased
-      have key : ∀ (l : List Nat) (acc : Cache), b ∈ l →
-          l.foldl (fun acc q => eraseUpF n h acc q) acc p = [] := by
-        intro l
-        induction l with
-        | nil => intro acc hb; cases hb
-        | cons q l ihl =>
-          intro acc hb
-          rcases List.mem_cons.mp hb with rfl | hb
-          · exact foldl_eraseUp_keeps_empty n h p l _ (ih hl hf n acc (by omega))
-          · exact ihl _ hb
-      exact key _ _ hmem
+      ∀ n c, p < i + (n + 1) → eraseUpF n h c i p = [] :=
+  fun p i r hl hf n c hn => eraseLv_reaches h hinv p i r hl hf n c [i] (by simp) hn
 
 /-- coherence carries over to a state whose caches are a subset and whose kept entries see the same subtree -/
 theorem coherent_transfer (sem : Sem) (s s' : CState)
